@@ -501,6 +501,44 @@ func schedScenarios() []scenario {
 			return []thread{mul(x, x, 100), mul(x, y, 60), quo(w, x, 30, ToZero)}
 		}), thr},
 	}
+	// aliased receivers: every goroutine works on its own private receiver that is also an operand
+	// (the code paths taken only under aliasing use temporaries of their own)
+	priv := func(src *Dec, p uint32) *Dec { return new(Dec).SetPrec(uint(p)).Set(src) }
+	alias := func(name string, f func(z, a, b *Dec) *Dec, zs, a, b *Dec, p uint32) thread {
+		return thread{name, func() string { return dig(f(priv(zs, p), a, b)) }}
+	}
+	addzx := func(z, a, b *Dec) *Dec { return z.Add(a, z) }
+	subzx := func(z, a, b *Dec) *Dec { return z.Sub(a, z) }
+	subxz := func(z, a, b *Dec) *Dec { return z.Sub(z, a) }
+	mulzz := func(z, a, b *Dec) *Dec { return z.Mul(z, z) }
+	quozx := func(z, a, b *Dec) *Dec { return z.Quo(a, z) }
+	fmau := func(z, a, b *Dec) *Dec { return z.FMA(a, b, z) }
+	fmax := func(z, a, b *Dec) *Dec { return z.FMA(z, a, b) }
+	sqrtz := func(z, a, b *Dec) *Dec { return z.Sqrt(z) }
+	scs = append(scs,
+		scenario{"z.Add(y,z)||z.Add(y,z)", mk(func(x, y, w *Dec) []thread {
+			// both directions of "which operand reaches further down" (the one that does not is shifted into a temporary)
+			return []thread{alias("z.Add(y,z)", addzx, x, y, nil, 120), alias("z'.Add(y,z')", addzx, w, y, nil, 90)}
+		}), thr},
+		scenario{"z.Add(x,z)||z.Add(w,z)", mk(func(x, y, w *Dec) []thread {
+			return []thread{alias("z.Add(x,z)", addzx, y, x, nil, 120), alias("z'.Add(w,z')", addzx, y, w, nil, 90)}
+		}), thr},
+		scenario{"z.Sub(y,z)||z.Sub(y,z)", mk(func(x, y, w *Dec) []thread {
+			return []thread{alias("z.Sub(y,z)", subzx, w, y, nil, 120), alias("z'.Sub(y,z')", subzx, x, y, nil, 90)}
+		}), thr},
+		scenario{"z.Sub(z,y)||z.Sub(z,x)", mk(func(x, y, w *Dec) []thread {
+			return []thread{alias("z.Sub(z,y)", subxz, x, y, nil, 120), alias("z'.Sub(z',x)", subxz, y, x, nil, 90)}
+		}), thr},
+		scenario{"u.FMA(x,y,u)||u.FMA(x,y,u)", mk(func(x, y, w *Dec) []thread {
+			return []thread{alias("u.FMA(x,y,u)", fmau, w, x, y, 150), alias("u.FMA(y,x,u)", fmau, x, y, x, 60)}
+		}), thr},
+		scenario{"z.FMA(z,x,y)||z.Mul(z,z)", mk(func(x, y, w *Dec) []thread {
+			return []thread{alias("z.FMA(z,x,y)", fmax, w, x, y, 150), alias("z.Mul(z,z)", mulzz, x, nil, nil, 200)}
+		}), thr},
+		scenario{"z.Quo(x,z)||z.Sqrt(z)", mk(func(x, y, w *Dec) []thread {
+			return []thread{alias("z.Quo(x,z)", quozx, y, x, nil, 40), alias("z.Sqrt(z)", sqrtz, y, nil, nil, 30)}
+		}), thr},
+	)
 	// every non-arithmetic operand-taking operation against itself (two goroutines inside the same
 	// function at once: a function-local cache or scratch variable hoisted to package scope shows here)
 	for _, op := range roOps() {
@@ -550,7 +588,7 @@ func schedLayers(tier string) []Layer {
 	return []Layer{{
 		Name:   "Z1-schedules",
 		Units:  len(units),
-		Bounds: "37 scenarios of 2–3 goroutines (16 hand-written mixes + every non-arithmetic operand-taking operation against itself), each one operation with its own receiver on shared 3–5-word operands (thresholds 2/1/4 so that Karatsuba, squaring and long division use pooled scratch buffers); level A: scheduling points before and after every pool Get/Put, all interleavings for 2 threads (preemption bound 6; 3 threads: 3) × pool-answer deviations <= 2; level B: additionally a point before every arithmetic kernel call, preemption bound 2 (quick) / 3 (thorough) for 2 and 3 threads, pool deviations <= 1; adversarial pool (garbage on Get, poison on Put, ownership tracking); oracle: each thread's result == its sequential result, operands unchanged, no panic, pool protocol respected",
+		Bounds: "44 scenarios of 2–3 goroutines (16 hand-written mixes + 7 with private receivers that are also operands + every non-arithmetic operand-taking operation against itself), each one operation with its own receiver on shared 3–5-word operands (thresholds 2/1/4 so that Karatsuba, squaring and long division use pooled scratch buffers); level A: scheduling points before and after every pool Get/Put, all interleavings for 2 threads (preemption bound 6; 3 threads: 3) × pool-answer deviations <= 2; level B: additionally a point before every arithmetic kernel call, preemption bound 2 (quick) / 3 (thorough) for 2 and 3 threads, pool deviations <= 1; adversarial pool (garbage on Get, poison on Put, ownership tracking); oracle: each thread's result == its sequential result, operands unchanged, no panic, pool protocol respected",
 		Run: func(c *Ctx, u int) {
 			if !poolSeamsPresent() {
 				fmt.Fprintln(os.Stderr, "HARNESS-ERROR: pool seams not present in this build (overlay missing)")
@@ -562,6 +600,9 @@ func schedLayers(tier string) []Layer {
 				pb := 2
 				if thorough {
 					pb = 3
+				}
+				if strings.HasPrefix(sc.name, "z.") || strings.HasPrefix(sc.name, "u.") {
+					pb-- // private-receiver scenarios run several hundred kernel calls per thread
 				}
 				_ = threads
 				if kernelPointsSeen(sc) == 0 {
@@ -578,6 +619,12 @@ func schedLayers(tier string) []Layer {
 				pb := 6
 				if len(threads) > 2 {
 					pb = 3
+				}
+				if strings.HasPrefix(sc.name, "z.") || strings.HasPrefix(sc.name, "u.") {
+					pb = 2 // private-receiver scenarios: dozens of pool operations per thread
+					if thorough {
+						pb = 3
+					}
 				}
 				exploreScenario(c, sc, false, pb, 2, units[u].shard, units[u].nshards)
 			}
@@ -642,7 +689,72 @@ func racePass(args []string) int {
 	return 0
 }
 
+// stressPass (supporting, sampling): the scenario bodies free-running on real OS threads in the DEFAULT build
+// (assembly kernels, which neither the race detector nor the cooperative scheduler can look into); every
+// result is compared with the sequential result of the same body.
+func stressPass(args []string) int {
+	scs := schedScenarios()
+	runtime.GOMAXPROCS(16)
+	bad := 0
+	for si := range scs {
+		sc := &scs[si]
+		threads, _ := sc.mk()
+		want := make([]string, len(threads))
+		for i, t := range threads {
+			want[i] = t.body()
+		}
+		var mu sync.Mutex
+		var wg sync.WaitGroup
+		for round := 0; round < 6 && bad == 0; round++ {
+			for rep := 0; rep < 4; rep++ {
+				for i, t := range threads {
+					i, t := i, t
+					wg.Add(1)
+					go func() {
+						defer wg.Done()
+						defer func() {
+							if r := recover(); r != nil {
+								mu.Lock()
+								if bad < 5 {
+									fmt.Printf("STRESS-MISMATCH: scenario %s thread %s panicked when run concurrently: %v\n", sc.name, t.name, r)
+								}
+								bad++
+								mu.Unlock()
+							}
+						}()
+						for k := 0; k < 40; k++ {
+							if got := t.body(); got != want[i] {
+								mu.Lock()
+								if bad < 5 {
+									fmt.Printf("STRESS-MISMATCH: scenario %s thread %s computed %.300s concurrently, %.300s sequentially\n", sc.name, t.name, got, want[i])
+								}
+								bad++
+								mu.Unlock()
+								return
+							}
+						}
+					}()
+				}
+			}
+			waited := make(chan struct{})
+			go func() { wg.Wait(); close(waited) }()
+			select {
+			case <-waited:
+			case <-time.After(60 * time.Second):
+				fmt.Printf("NON-TERMINATION: scenario %s did not finish within 60 s when run concurrently (default build)\n", sc.name)
+				os.Exit(3)
+			}
+		}
+	}
+	fmt.Println("stresspass: completed", len(scs), "scenarios x 6 rounds x 4 copies x 40 iterations, default build; mismatches:", bad)
+	if bad > 0 {
+		return 4
+	}
+	return 0
+}
+
 func init() {
+	specials["stresspass"] = stressPass
 	specials["racepass"] = racePass
 	register(&Property{
 		ID: "C18", OwnPool: true, Level: "model_checking",
